@@ -4,7 +4,10 @@
 //! -   letting the last parked worker take action, and
 //! -   letting workers and mutators notify workers when workers are given things to do.
 
+#[cfg(not(feature = "verif"))]
 use std::sync::{Condvar, Mutex};
+#[cfg(feature = "verif")]
+use crate::util::verif::sync::{Condvar, Mutex};
 
 use super::{
     worker::WorkerShouldExit,
@@ -100,6 +103,8 @@ impl WorkerMonitor {
     pub fn make_request(&self, goal: WorkerGoal) {
         let mut guard = self.sync.lock().unwrap();
         let newly_requested = guard.goals.set_request(goal);
+        #[cfg(feature = "verif")]
+        crate::util::verif::rt::event("request", goal as usize, newly_requested as usize);
         if newly_requested {
             self.notify_work_available(false);
         }
@@ -136,6 +141,8 @@ impl WorkerMonitor {
 
         // Park this worker
         let all_parked = sync.parker.inc_parked_workers();
+        #[cfg(feature = "verif")]
+        crate::util::verif::rt::event("park", ordinal, all_parked as usize);
         trace!(
             "Worker {} parked.  parked/total: {}/{}.  All parked: {}",
             ordinal,
@@ -149,6 +156,14 @@ impl WorkerMonitor {
         if all_parked {
             trace!("Worker {} is the last worker parked.", ordinal);
             let result = on_last_parked(&mut sync.goals);
+            #[cfg(feature = "verif")]
+            let verif_code = match result {
+                LastParkedResult::ParkSelf => 0,
+                LastParkedResult::WakeSelf => 1,
+                LastParkedResult::WakeAll => 2,
+            };
+            #[cfg(feature = "verif")]
+            crate::util::verif::rt::event("last_parked", ordinal, verif_code);
             match result {
                 LastParkedResult::ParkSelf => {
                     should_wait = true;
@@ -223,6 +238,8 @@ impl WorkerMonitor {
 
         // Unpark this worker.
         sync.parker.dec_parked_workers();
+        #[cfg(feature = "verif")]
+        crate::util::verif::rt::event("unpark", ordinal, 0);
         trace!(
             "Worker {} unparked.  parked/total: {}/{}.",
             ordinal,
@@ -244,7 +261,24 @@ impl WorkerMonitor {
     /// Called when all workers have exited.
     pub fn on_all_workers_exited(&self) {
         let mut sync = self.sync.try_lock().unwrap();
+        #[cfg(feature = "verif")]
+        crate::util::verif::rt::event("all_exited", 0, 0);
         sync.goals.on_current_goal_completed();
+    }
+}
+
+/// Verification hook (feature `verif`): (worker count, parked workers, current goal, requested
+/// goals as a bit mask), or `None` if the monitor is locked.
+#[cfg(feature = "verif")]
+impl WorkerMonitor {
+    pub(crate) fn verif_snapshot(&self) -> Option<(usize, usize, Option<usize>, usize)> {
+        let sync = self.sync.try_lock().ok()?;
+        Some((
+            sync.parker.worker_count,
+            sync.parker.parked_workers,
+            sync.goals.current().map(|g| g as usize),
+            sync.goals.verif_requested_mask(),
+        ))
     }
 }
 
